@@ -301,6 +301,21 @@ def r03_5(run, model):
         if hn == "check_pat_wild":
             used, cond_only = True, False
         run.ob("R03.5", f"{hn}|uses the expected type", used, site(CHECK, g.node["sp"]), f"`{exp}` {'reaches' if used else 'never reaches'} a constraint / binding / recursive check")
+    # a handler that relates the pattern to the scrutinee by one constraint of its own pushes it on every path: a constraint left out
+    # while the scrutinee's type is still a variable is never made up for
+    for hn in sorted(handlers | {"check_pat_wild"}):
+        g = model.opt_fn(hn, CHECK, impl="Typer")
+        if g is None or g.body is None:
+            continue
+        par = S.Parents(g.body)
+        pcs = [c for c in S.calls(g.body, "push_constraint")]
+        if len(pcs) != 1:
+            continue      # several constraints chosen by case analysis (constructor patterns): R03.5's use test above
+        conds = [x for x in par.ancestors(pcs[0]) if x["k"] in ("If", "Match", "For", "While", "Closure")]
+        run.ob("R03.5", f"{hn}|its constraint is pushed on every path", not conds, site(CHECK, pcs[0]["sp"]),
+               "unconditional" if not conds else f"only under `{S.norm_ws(run.facts.text(CHECK, (conds[0].get('cond') or conds[0].get('scrut') or conds[0])['sp']))[:60]}`",
+               witness="let f = |x| match x { 5 => 1, _ => 0 }; f(\"five\"): the literal pattern is not related to the scrutinee while its type is a "
+                       "variable; the ill-typed pattern reaches the match compiler, which panics (`expected string primitive pattern`)")
     g = model.fn("check_pat_tuple", CHECK, impl="Typer")
     par = S.Parents(g.body)
     pcs = [c for c in S.calls(g.body, "push_constraint")]
